@@ -484,12 +484,56 @@ def r_wrap(sh, rep, t):
 BIGINT_OWNERS = {"from_pallas_bigint", "to_pallas_bigint"}
 
 
+def _int_pattern_sites(body):
+    """(pattern node, failure continuation) for every pattern on BigInt::Int: else-block of a let-else, else-branch of an
+    if-let, bodies of the catch-all arms of the enclosing match (None when there is nothing to run)."""
+    out = []
+
+    def is_int(n):
+        return isinstance(n, dict) and n.get("k") in ("PPath", "PTupleStruct", "PStruct") and re.search(r"(^|::)BigInt::Int$", n.get("p") or "")
+
+    def pats_in(p):
+        return [x for x in walk(p) if is_int(x)]
+
+    for n in walk(body):
+        k = n.get("k")
+        if k == "Local" and n.get("pat") is not None:
+            for x in pats_in(n["pat"]):
+                out.append((x, n.get("else")))
+        elif k == "If" and isinstance(n.get("cond"), dict):
+            for lc in walk(n["cond"]):
+                if lc.get("k") == "LetCond":
+                    for x in pats_in(lc["pat"]):
+                        out.append((x, n.get("else")))
+        elif k == "Match":
+            for a in n["arms"]:
+                xs = pats_in(a["pat"])
+                if xs:
+                    fb = [b["body"] for b in n["arms"] if b is not a and all(h is None or not re.search(r"[A-Z]", last(h)) for h in [pat_head(q_) for q_ in _flat_alts(b["pat"])])]
+                    for x in xs:
+                        out.append((x, {"k": "Block", "s": n["s"], "stmts": fb} if fb else None))
+    return out
+
+
+def _flat_alts(p):
+    """alternatives of a pattern, tuples flattened to their components"""
+    out = []
+    for a in pat_alts(p):
+        if a.get("k") in ("PTuple", "Tuple"):
+            for e in a.get("elems", []):
+                out.extend(_flat_alts(e))
+        else:
+            out.append(a)
+    return out
+
+
 def r_bigintsites(sh, rep, rid):
     """PlutusData integers beyond 64 bits are stored as magnitudes, negative ones as the magnitude of -1-n. Exactly two
     functions know that (machine/value.rs: from_pallas_bigint / to_pallas_bigint); every other place converts through them.
     A reducer, size measure or printer that matches on BigUInt / BigNInt itself re-implements the convention — the place
     where `-magnitude` is written for `-1-magnitude` and only integers below -2^64 show it."""
     found = {}
+    intpats = []
     for rel in sh.files():
         if not rel.startswith("crates/") or "/tests/" in rel or rel.endswith("tests.rs"):
             continue
@@ -500,11 +544,21 @@ def r_bigintsites(sh, rep, rid):
             hits = [n for n in walk(f["body"]) if n["k"] in ("PPath", "PTupleStruct", "PStruct", "Path", "Call") and re.search(r"(^|::)BigInt::(BigUInt|BigNInt)$", (n.get("p") or (n["f"].get("p") if n["k"] == "Call" and n["f"]["k"] == "Path" else "") or ""))]
             if hits:
                 found[(rel, q)] = hits
+            # a *pattern* on BigInt::Int (constructing one from a machine integer is total and fine) is a partial reader: it
+            # accepts the 64-bit form only. That is sound exactly when the other case falls through to something that does
+            # not abort (an optimisation that simply does not fire); a let-else / catch-all arm that panics turns every
+            # integer beyond 64 bits into a crash of the compiler or evaluator.
+            for pat, fail in _int_pattern_sites(f["body"]):
+                boom = [x for x in (walk(fail) if fail is not None else ()) if (x["k"] == "Macro" and last(x.get("path", "")) in ("panic", "unreachable", "todo", "unimplemented")) or (x["k"] == "MethodCall" and x["m"] in ("unwrap", "expect"))]
+                if not (q.split("::")[-1] in BIGINT_OWNERS and rel == "crates/uplc/src/machine/value.rs"):
+                    intpats.append((rel, q, pat, boom))
     seen = set()
     for (rel, q), hits in sorted(found.items()):
         owner = q.split("::")[-1] in BIGINT_OWNERS and rel == "crates/uplc/src/machine/value.rs"
         if owner:
             seen.add(q.split("::")[-1])
-        rep.check(owner, rid, "bigint-repr-site#%s#%s" % (rel.split("/")[-1], q), sh.loc(rel, hits[0]), "%s in %s takes pallas' BigUInt / BigNInt representation apart itself instead of going through from_pallas_bigint / to_pallas_bigint: a private copy of the `-1 - magnitude` convention, wrong values (or sizes) only for integers beyond 64 bits" % (q, rel), why_ok="owner of the convention", sample={"sites": len(hits)})
+        rep.check(owner, rid, "bigint-repr-site#%s#%s" % (rel.split("/")[-1], q), sh.loc(rel, hits[0]), "%s in %s takes pallas' Int / BigUInt / BigNInt representation apart itself instead of going through from_pallas_bigint / to_pallas_bigint: a private copy of the `-1 - magnitude` convention, wrong values (or sizes) only for integers beyond 64 bits" % (q, rel), why_ok="owner of the convention", sample={"sites": len(hits)})
+    for i, (rel, q, pat, boom) in enumerate(intpats):
+        rep.check(not boom, rid, "bigint-int-pattern#%s#%s#%d" % (rel.split("/")[-1], q, i), sh.loc(rel, pat), "%s matches only the 64-bit form BigInt::Int of a Data integer and the other case runs into `%s` (line %s): any integer beyond 64 bits reaching this place aborts the process" % (q, (boom[0].get("path") or boom[0].get("m")) if boom else "-", boom[0]["s"][0] if boom else "-"), why_ok="partial reader whose fallback does not abort", sample={"fn": q})
     if seen != BIGINT_OWNERS:
         rep.bad(rid, "bigint-repr-site#owners", "crates/uplc/src/machine/value.rs", "expected from_pallas_bigint and to_pallas_bigint to match on BigUInt / BigNInt (found %s): the detector may be blind (anchor)" % sorted(seen))
